@@ -43,6 +43,9 @@ OpsOf(cls, s) ==
     [] cls = "AuthorizePending" -> {[op |-> "AuthorizePending", k |-> k] : k \in {x \in CertKeys : s.cert[x] = "pending" /\ ~s.rec[x]}}
     [] cls = "DialPending" -> {[op |-> "Dial", k |-> k, ex |-> RE({"none", "one"}), stt |-> RE({"none", "nested"})] : k \in {x \in CertKeys : s.cert[x] = "pending"}}
     [] cls = "Rogue" -> {[op |-> "Rogue", k |-> k, kind |-> RE(RogueKinds), ex |-> RE({"none", "one", "many"})] : k \in {x \in CertKeys : s.cert[x] \in {"fresh", "stale"}}}
+    [] cls = "RotateNode" -> {[op |-> "RotateNode", k |-> k] : k \in {x \in CertKeys : s.cert[x] \in {"fresh", "stale"}}}
+    [] cls = "RemovePrev" -> {[op |-> "RemovePrev", k |-> k] : k \in {x \in CertKeys : s.prevrec[x]}}
+    [] cls = "DialPrev" -> {[op |-> "DialPrev", k |-> k] : k \in {x \in CertKeys : s.hasprev[x]}}
     [] cls = "Malformed" -> {[op |-> "Malformed", cls |-> RE(MalClasses), pfx |-> RE(MalPrefixes)]}
 
 Good(cls, s) == {o \in OpsOf(cls, s) : Apply(s, o).res # "skip"}
